@@ -159,6 +159,30 @@ impl Checker for C14 {
                 ops2.push(Op::CreateFile { base: DirRef::Root, path: "g".into(), keep: Some(1) });
                 ops2.push(Op::WriteAll { h: 1, len: 2 * 512 + 1 });
                 ops2.push(Op::Flush { h: 1 });
+                // the same fault, but the write reports complete success although a device call failed (the fault was
+                // absorbed): the caller has no reason to retry, flushes, and the flushed content must be there
+                let mut ops3 = ops.to_vec();
+                ops3.push(Op::Flush { h: 0 });
+                for k in 1..=ex.calls_last {
+                    let plan = Plan { fault: Some((k, 0x00FA_0000 + k as u32)), fault_op: Some(n - 1), ..self.plan() };
+                    let fx = sess::run(cfg, &ops3, &plan);
+                    if fx.panic.is_some() || fx.fired_early.is_none() {
+                        continue;
+                    }
+                    let absorbed = matches!(fx.outs.get(n - 1), Some(Ok(Out::Progress { accepted, err: None })) if *accepted == *len as u64);
+                    if !absorbed || !matches!(fx.outs.get(n), Some(Ok(_))) {
+                        continue;
+                    }
+                    let Some(fnode) = fx.model.nodes.values().find(|x| x.given == "f") else { continue };
+                    self.ctr.crash_images.fetch_add(1, Ordering::Relaxed);
+                    let want3 = fnode.data.clone();
+                    let r = check_image(cfg, image_from(cfg, &fx.log, &|_| true), &want3, "write-ok-despite-storage-fault-then-flushed");
+                    *self.ctr.classes.lock().unwrap().entry(format!("write-ok-despite-storage-fault:{}", if r.is_some() { "LOST" } else { "intact" })).or_default() += 1;
+                    if let Some((sig, msg)) = r {
+                        v.push((sig, format!("{msg} [device call {k}/{} of {:?} failed once, the call still reported complete success; flushed]", ex.calls_last, ops[n - 1])));
+                        break;
+                    }
+                }
                 for k in 1..=ex.calls_last {
                     let plan = Plan { fault: Some((k, 0x00FB_0000 + k as u32)), fault_op: Some(n - 1), ..self.plan() };
                     let fx = sess::run(cfg, &ops2, &plan);
